@@ -452,6 +452,17 @@ def gen_packets(ctx: Ctx, pfx: bytes, wide: bool):
         for last in range(256):
             for n in (2, 25):
                 yield "firstlast", bytes([b0]) + b"\x98" * (n - 2) + bytes([last])
+    # A3b: the tail: last and second-to-last byte around the bencode terminator, with line terminators / NUL / case variants
+    # (what a slice comparison, an endswith, a strip or a regular expression would treat differently)
+    tails = (0x65, 0x45, 0x0a, 0x0d, 0x00, 0x20, 0x64, 0x66, 0x24)
+    for b0 in (0x64, 0x44, 0x0a, 0x65):
+        for t1 in tails:
+            for t2 in tails:
+                for n in (2, 3, 4, 9, 30):
+                    mid = (b"\x97\x0a\x65" * 10)[:max(0, n - 3)]
+                    p = (bytes([b0]) + mid + bytes([t1, t2]))[-n:] if n < 3 else bytes([b0]) + mid + bytes([t1, t2])
+                    yield "tail", p
+                    yield "tail", bytes([b0]) + b"\n" + mid + bytes([t1, t2])     # a newline right after the first byte
     # A4: the 22-byte prefix, every bit; foreign prefixes
     for n in (22, 23, 24, 60):
         base = (pfx + b"\x01" + rb(64))[:n]
@@ -1326,6 +1337,10 @@ REQUIRED_BRANCHES = [
     "B:join:creator-key:known-at-other-ip", "B:peer-moves:network-peer-updated",
     # endpoint -> PythonCryptoEndpoint.process_cell -> on_cell -> on_packet_from_circuit -> on_data
     "B:cell:exit-socket-keys", "B:cell:own-circuit-keys", "B:cell:no-keys(unknown-circuit)",
+    # where the exit flags come from: service loader / configuration objects, two instances in one process
+    "C:config:A=builder:set", "C:config:A=builder:list", "C:config:A=builder:list-via-json", "C:config:A=builder:tuple",
+    "C:config:A=default-config-edited-in-place:set", "C:config:A=default-config-edited-in-place:list",
+    "C:config:B=builder:empty-initialize", "C:config:B=default-config-untouched", "C:config:B=default-config-untouched:also-before-A",
 ]
 
 
@@ -1403,6 +1418,142 @@ def enforce_branch_coverage(ctx: Ctx):
                          + ", ".join(missing))
 
 
+# ---- part C: where the exit flags come from (configuration path, several instances in one process) -------------------
+def run_configuration_isolation(ctx: Ctx):
+    """The policy of a node is what ITS operator configured.  Build a node A through the real service loader
+    (ipv8_service.IPv8) with exit flags configured in the ways configurations are written (set / list / tuple, ConfigBuilder,
+    JSON round trip, get_default_configuration() edited in place as scripts/exitnode_ipv8_only_plugin.py does), then a node B
+    whose configuration has no exit flag (untouched default configuration, ConfigBuilder with an empty `initialize`, a plain
+    TunnelSettings()), in the same process, in both orders.  B's effective flags must be the default ones and B must not
+    exit / tunnel back anything its own configuration forbids."""
+    import copy
+    import json
+    from ipv8 import configuration as C
+    from ipv8.keyvault.crypto import default_eccrypto
+    from ipv8.messaging.anonymization import tunnel as T
+    from ipv8.messaging.anonymization.community import TunnelSettings
+    from ipv8.messaging.anonymization.exit_socket import TunnelExitSocket
+    from ipv8.messaging.interfaces.udp.endpoint import UDPv4Address
+    from ipv8.peer import Peer
+    from ipv8.test.mocking.endpoint import AutoMockEndpoint
+    from ipv8_service import IPv8
+    logging.disable(logging.CRITICAL)
+    AutoMockEndpoint.SEND_INET_EXCEPTION_TO_LOOP = False
+    default_flags = sorted(TunnelSettings().peer_flags)
+    default_snapshot = copy.deepcopy(C.default)
+    R, BT, V8 = T.PEER_FLAG_RELAY, T.PEER_FLAG_EXIT_BT, T.PEER_FLAG_EXIT_IPV8
+    probes = [("utp", bytes.fromhex("4100") + b"\x01" * 18), ("tracker", bytes.fromhex("00000417271019800000000012345678")),
+              ("dht", b"d1:ad2:id20:abcdefghij0123456789e"), ("ipv8-other-overlay", b"\x00\x02" + bytes(range(0x40, 0x54)) + b"\xf5payload")]
+
+    def builder_cfg(cls, initialize, via_json):
+        b = C.ConfigBuilder().clear_keys().clear_overlays()
+        b.add_ephemeral_key("anonymous id")
+        b.add_overlay(cls, "anonymous id", [], [], initialize, [])
+        cfg = b.finalize()
+        return json.loads(json.dumps(cfg)) if via_json else cfg
+
+    def default_cfg(edit):
+        cfg = C.get_default_configuration()
+        cfg["keys"] = [{"alias": "anonymous id", "generation": "curve25519", "file": None}]
+        cfg["overlays"] = [o for o in cfg["overlays"] if o["class"] == "HiddenTunnelCommunity"]
+        for o in cfg["overlays"]:
+            o["walkers"], o["bootstrappers"], o["on_start"] = [], [], []
+            if edit is not None:
+                o["initialize"]["min_circuits"] = 0
+                o["initialize"]["max_circuits"] = 0
+                o["initialize"]["peer_flags"] = edit
+        return cfg
+
+    a_forms = [
+        ("builder:set", lambda: builder_cfg("TunnelCommunity", {"peer_flags": {R, BT}}, False), [R, BT]),
+        ("builder:list", lambda: builder_cfg("TunnelCommunity", {"peer_flags": [R, BT]}, False), [R, BT]),
+        ("builder:list-via-json", lambda: builder_cfg("TunnelCommunity", {"peer_flags": [R, BT, V8]}, True), [R, BT, V8]),
+        ("builder:tuple", lambda: builder_cfg("HiddenTunnelCommunity", {"peer_flags": (R, V8)}, False), [R, V8]),
+        ("default-config-edited-in-place:set", lambda: default_cfg({V8}), [V8]),
+        ("default-config-edited-in-place:list", lambda: default_cfg([R, BT]), [R, BT]),
+    ]
+    b_forms = [
+        ("builder:empty-initialize", lambda: builder_cfg("TunnelCommunity", {}, False)),
+        ("builder:empty-initialize-via-json", lambda: builder_cfg("HiddenTunnelCommunity", {}, True)),
+        ("default-config-untouched", lambda: default_cfg(None)),
+    ]
+
+    def probe(overlay, configured, who, case):
+        hop_peer = Peer(default_eccrypto.generate_key("curve25519").pub(), UDPv4Address("1.2.3.4", 5))
+        es = TunnelExitSocket(42, T.Hop(hop_peer, None), overlay)
+        out, back = [], []
+
+        class Tr:
+            def sendto(self, data, addr):
+                out.append(bytes(data))
+
+            def close(self):
+                pass
+        es.enabled, es.transport_ipv4, es.transport_ipv6 = True, Tr(), Tr()
+        overlay.send_data = lambda target, cid, dest, src, data: back.append(bytes(data))
+        pfx = bytes(overlay.get_prefix())
+        for name, p in probes:
+            n_out, n_back = len(out), len(back)
+            es.sendto(p, UDPv4Address("93.184.216.34", 6881))
+            es.datagram_received(p, UDPv4Address("198.51.100.7", 6881))
+            ok = spec_allowed(BT in configured, V8 in configured, pfx, p)
+            for direction, happened in (("out", len(out) > n_out), ("in", len(back) > n_back)):
+                ctx.case(("C", case, who, name, direction), nontrivial=True)
+                if happened and not ok:
+                    ctx.oracle_fail("ipv8_service.IPv8:exit-flags-of-another-instance",
+                                    f"{case}: node {who}, whose own configuration gives peer_flags={sorted(configured)}, "
+                                    f"{'emitted' if direction == 'out' else 'tunnelled back'} a {name} packet; its settings.peer_flags is "
+                                    f"{sorted(overlay.settings.peer_flags)}",
+                                    {"part": "C", "case": case, "node": who, "packet": p.hex(), "direction": direction})
+                if ok and not happened:
+                    ctx.disagree(f"{case}: node {who} configured with {sorted(configured)} did not let an allowed {name} packet through ({direction})",
+                                 {"part": "C", "case": case})
+        return es
+
+    async def pair(a_name, a_cfg, a_flags, b_name, b_cfg, b_first):
+        case = f"A={a_name} B={b_name}" + (" (an unconfigured node also exists before A)" if b_first else "")
+        nodes = []
+        try:
+            if b_first:
+                nodes.append(IPv8(b_cfg(), endpoint_override=AutoMockEndpoint()))
+            node_a = IPv8(a_cfg(), endpoint_override=AutoMockEndpoint())
+            nodes.append(node_a)
+            node_b = IPv8(b_cfg(), endpoint_override=AutoMockEndpoint())
+            nodes.append(node_b)
+            for n in nodes:
+                for o in n.overlays:
+                    o.cancel_all_pending_tasks()
+            sockets = [probe(node_a.overlays[0], a_flags, "A", case), probe(node_b.overlays[0], default_flags, "B", case)]
+            if b_first:
+                sockets.append(probe(nodes[0].overlays[0], default_flags, "B0", case))
+            fresh = sorted(TunnelSettings().peer_flags)
+            if fresh != default_flags:
+                ctx.disagree(f"{case}: a fresh TunnelSettings() now has peer_flags {fresh}, before: {default_flags}", {"part": "C", "case": case})
+            if C.default != default_snapshot:
+                ctx.disagree(f"{case}: the module-level default configuration changed", {"part": "C", "case": case})
+            for es in sockets:
+                await es.close()
+        finally:
+            for n in nodes:
+                await n.stop()
+        ctx.count("C:config:A=" + a_name)
+        ctx.count("C:config:B=" + b_name + (":also-before-A" if b_first else ""))
+
+    async def main():
+        k = 0
+        for a_name, a_cfg, a_flags in a_forms:
+            for b_name, b_cfg in b_forms:
+                k += 1
+                await pair(a_name, a_cfg, a_flags, b_name, b_cfg, b_first=(k % 4 == 0))
+    loop = asyncio.new_event_loop()
+    try:
+        asyncio.set_event_loop(loop)
+        loop.run_until_complete(main())
+    finally:
+        loop.close()
+        logging.disable(logging.NOTSET)
+
+
 THEOREM_KINDS = {
     "property clause (model, all histories/states)": ["is_allowed_spec", "emit_policy", "inbound_policy", "no_null_dest", "resolve_policy",
                                                       "enabled_flip_cause", "unopened_socket_untouched", "step_policy", "no_reentry",
@@ -1436,7 +1587,15 @@ def check_hidden_community(ctx: Ctx):
 
 
 def run(ctx: Ctx):
+    if ctx.replay_input is not None and ctx.replay_input.get("replay", ctx.replay_input).get("part") == "C":
+        before = len(ctx.failures)
+        run_configuration_isolation(ctx)          # the configuration cases are deterministic: re-run them all
+        for f in ctx.failures[before:][:5]:
+            print("replay:", f["what"][:300])
+        print("replay: property", "FAILS" if len(ctx.failures) > before else "holds")
+        return None
     if ctx.replay_input is None:
+        run_configuration_isolation(ctx)
         check_hidden_community(ctx)
     rec = ctx.replay_input or {}
     env = Env(rec.get("replay", rec).get("history", {}).get("community", "base"))
@@ -1459,6 +1618,7 @@ def run(ctx: Ctx):
 
 def search(ctx: Ctx, reason: str):
     # kept small: a red quick run must stay well under ~3 minutes
+    run_configuration_isolation(ctx)
     check_hidden_community(ctx)
     env = Env()
     try:
